@@ -36,7 +36,10 @@ TraceInit ==
     /\ tid \in 1..Len(Traces) /\ l = 1
     /\ store = StoreOf(Traces[tid].init.store)
     /\ ridx = ToSet(Traces[tid].init.ridx)
-    /\ delivered = [s \in Stores |-> PresentSet(store, s)] /\ opened = {} /\ unfin = {} /\ dev = {}
+    /\ delivered = [s \in Stores |-> PresentSet(store, s)]
+    \* a store that starts with mismatching objects has been tampered with before the trace begins
+    /\ opened = {s \in Stores : \E o \in Oids : store[s][o] \in {"bad_u", "bad_p"}}
+    /\ gced = {} /\ unfin = {} /\ dev = {}
     /\ nx = 0 /\ act = [op |-> "Init"] /\ last = [op |-> "init"]
     /\ ph = "idle" /\ xs = [src |-> None] /\ todo = {} /\ cur = None /\ bound = {} /\ curFails = {}
     /\ pend = None /\ loose = {} /\ failed = {} /\ okDirs = {} /\ batch = {} /\ lost = {} /\ bk = "none"
@@ -86,6 +89,7 @@ Resync ==
        /\ delivered' = NoteDelivered(S)
        /\ act' = [op |-> op]
        /\ opened' = IF op \in {"Tamper", "ExtDelete"} THEN opened \cup {e.act.s} ELSE opened
+       /\ gced' = IF op = "Gc" THEN gced \cup {e.act.s} ELSE gced
        /\ IF op = "TransferBegin" /\ r.op = "xstatus" /\ "exc" \notin DOMAIN r
           THEN /\ xs' = [src |-> e.act.src, dst |-> e.act.dst, req |-> ToSet(e.act.req), shallow |-> e.act.shallow,
                          F |-> ToSet(e.act.F), verify |-> e.act.verify, idx |-> e.act.idx /\ e.act.dst = IdxStore,
@@ -107,82 +111,64 @@ Fail == /\ Have /\ ~ENABLED Match
         /\ Say("DIVERGENCE", "-", Ev.act.op)
 
 (******************* the properties, on the observed step ********************)
-\* truth about store s in state S as a user would audit it
-TrulyThere(S, s, o) == Present(S, s, o) /\ ~(Local(s) /\ S[s][o] = "bad_u")
+\* the logged action record with JSON arrays turned into sets
+ObsAct(e) ==
+    LET a == e.act IN
+    CASE a.op = "Status" -> [op |-> "Status", s |-> a.s, ids |-> ToSet(a.ids), shallow |-> a.shallow, idx |-> a.idx]
+      [] a.op = "CompareStatus" -> [op |-> "CompareStatus", a |-> a.a, b |-> a.b, ids |-> ToSet(a.ids), shallow |-> a.shallow]
+      [] a.op = "Gc" -> [op |-> "Gc", s |-> a.s, used |-> ToSet(a.used), foreign |-> ToSet(a.foreign),
+                         shallow |-> a.shallow, dry |-> a.dry, ro |-> a.ro]
+      [] OTHER -> a
 
 Judge ==
     LET e == Ev
-        op == e.act.op
+        a == ObsAct(e)
+        op == a.op
         L == last'
-        S == store'
-        refused == "exc" \in DOMAIN L
+        S == store
+        T == store'
     IN
     \* ---- every step -------------------------------------------------------
-    /\ ((dev' = {} => \A s \in Stores : s \notin opened' => Closed(S, s)) \/ Say("VERDICT", "C04", "Closed"))
-    /\ (C12_Index(S, ridx', delivered') \/ Say("VERDICT", "C12", "Index"))
-    /\ ((\A s \in Stores : s \notin opened' => \A o \in Oids : S[s][o] \in {Absent, "ok_u", "ok_p"})
+    /\ ((dev' = {} => \A s \in Stores : s \notin opened' => Closed(T, s)) \/ Say("VERDICT", "C04", "Closed"))
+    /\ (C12_IndexX(T, ridx', delivered', opened', gced') \/ Say("VERDICT", "C12", "Index"))
+    /\ ((\A s \in Stores : s \notin opened' => \A o \in Oids : T[s][o] \in {Absent, "ok_u", "ok_p"})
             \/ Say("VERDICT", "C01", "Addressed"))
     /\ (e.aliens = <<>> \/ Say("VERDICT", "C01", "AlienObject"))
     /\ ((ph' = "idle" => \A s \in Stores : (Local(s) /\ s \notin opened') =>
-                \A o \in Oids : S[s][o] = "ok_u" => o \in unfin') \/ Say("VERDICT", "C01", "Protected"))
-    \* intact objects are never deleted or rejected by a library operation (C07)
-    /\ ((op \notin {"Tamper", "ExtDelete", "Gc"} =>
-            \A s \in Stores, o \in Oids : Intact(store, s, o) => Intact(S, s, o)) \/ Say("VERDICT", "C07", "IntactUnharmed"))
+                \A o \in Oids : T[s][o] = "ok_u" => o \in unfin') \/ Say("VERDICT", "C01", "Protected"))
+    /\ ((op \notin {"Tamper", "ExtDelete", "Gc"} => C07_IntactUnharmed(S, T)) \/ Say("VERDICT", "C07", "IntactUnharmed"))
     \* ---- end of a transfer -------------------------------------------------
     /\ (op = "TransferEnd" /\ L.op = "transfer") =>
          /\ (C11_Disjoint(L) \/ Say("VERDICT", "C11", "Disjoint"))
          /\ (C11_Partition(L) \/ Say("VERDICT", "C11", "Partition"))
-         /\ ((xs.src \notin opened => C11_Arrived(L, S)) \/ Say("VERDICT", "C11", "Arrived"))
-         /\ ((xs.verify => \A o \in L.transferred : Intact(S, xs.dst, o)) \/ Say("VERDICT", "C11", "ArrivedVerified"))
-         /\ (C11_AbsentReported(L, S) \/ Say("VERDICT", "C11", "AbsentReported"))
+         /\ ((xs.src \notin opened => C11_Arrived(L, T)) \/ Say("VERDICT", "C11", "Arrived"))
+         /\ ((xs.verify => \A o \in L.transferred : Intact(T, xs.dst, o)) \/ Say("VERDICT", "C11", "ArrivedVerified"))
+         /\ (C11_AbsentReported(L, T) \/ Say("VERDICT", "C11", "AbsentReported"))
          /\ (C11_PresentUntouched(L) \/ Say("VERDICT", "C11", "PresentUntouched"))
-         /\ ((\A o \in Oids : Intact(store, xs.src, o) => Intact(S, xs.src, o)) \/ Say("VERDICT", "C11", "SourceUnmodified"))
-         /\ ((dev' = {} => C04_Withheld(L, L.failed, okDirs', S, xs.dst)) \/ Say("VERDICT", "C04", "Withheld"))
-         /\ ((dev' = {} => C04_Complete(L, S)) \/ Say("VERDICT", "C04", "RetryCompletes"))
-         /\ ((xs.verify => \A o \in Oids : S[xs.dst][o] \in {"bad_u"} => store[xs.dst][o] = "bad_u" /\ o \notin xs.new)
-                \/ Say("VERDICT", "C07", "VerifyRetainsNothing"))
+         /\ ((\A o \in Oids : Intact(S, xs.src, o) => Intact(T, xs.src, o)) \/ Say("VERDICT", "C11", "SourceUnmodified"))
+         /\ ((dev' = {} => C04_Withheld(L, L.failed, okDirs', T, xs.dst)) \/ Say("VERDICT", "C04", "Withheld"))
+         /\ ((dev' = {} => C04_Complete(L, T)) \/ Say("VERDICT", "C04", "RetryCompletes"))
+         /\ ((xs.verify => \A o \in xs.new : T[xs.dst][o] # "bad_u") \/ Say("VERDICT", "C07", "VerifyRetainsMismatch"))
     \* an upload of something the destination already had (C11: not re-sent)
-    /\ (op = "Put" => (e.act.x \notin xs.pre \/ Say("VERDICT", "C11", "Resent")))
-    \* ---- status -------------------------------------------------------------
-    /\ (op = "Status" /\ ~refused /\ ~e.act.idx) =>
-         LET ids == Expand(ToSet(e.act.ids), e.act.shallow) IN
-         /\ (L.exists = {o \in ids : TrulyThere(store, e.act.s, o)} \/ Say("VERDICT", "C12", "StatusExists"))
-         /\ (L.missing = ids \ L.exists \/ Say("VERDICT", "C12", "StatusMissing"))
-         /\ ((\A o \in ids : store[e.act.s][o] = "bad_u" /\ Local(e.act.s) => ~Present(S, e.act.s, o))
-                \/ Say("VERDICT", "C07", "QueryDropsCorrupt"))
-    /\ (op = "Status" /\ ~refused /\ e.act.idx) =>
-         \* with an index: a directory object is reported only if it is in the store now
-         ((\A d \in L.exists \cap Dirs : Present(store, e.act.s, d)) \/ Say("VERDICT", "C12", "StaleDirReported"))
-    /\ (op = "CompareStatus" /\ ~refused) =>
-         LET ids == Expand(ToSet(e.act.ids), e.act.shallow)
-             ea == {o \in ids : TrulyThere(store, e.act.a, o)}
-             eb == {o \in ids : TrulyThere(store, e.act.b, o)}
-         IN (/\ L.ok = ea \cap eb /\ L.new = ea \ eb /\ L.deleted = eb \ ea /\ L.missing = ids \ (ea \cup eb))
-               \/ Say("VERDICT", "C12", "ComparePartition")
+    /\ (op = "Put" => (a.x \notin xs.pre \/ Say("VERDICT", "C11", "Resent")))
+    \* the source is never written during a transfer
+    /\ (op \in {"Put", "Pick"} =>
+            ((\A o \in Oids : S[xs.src][o] = T[xs.src][o]) \/ Say("VERDICT", "C11", "SourceTouched")))
+    \* ---- status / compare_status ------------------------------------------------
+    /\ (op = "Status" =>
+          /\ (C12_StatusExact(S, a, L) \/ Say("VERDICT", "C12", "StatusExact"))
+          /\ (C12_NoStaleDir(S, a, L) \/ Say("VERDICT", "C12", "StaleDirReported"))
+          /\ (C07_QueryDrops(S, T, a, L) \/ Say("VERDICT", "C07", "QueryKeepsCorrupt")))
+    /\ (op = "CompareStatus" => (C12_Compare(S, a, L) \/ Say("VERDICT", "C12", "ComparePartition")))
     \* ---- gc -----------------------------------------------------------------
-    /\ (op = "Gc") =>
-         LET s == e.act.s
-             used == ToSet(e.act.used)
-             keep == GcKeep(used, e.act.shallow)
-             before == PresentSet(store, s)
-             after == PresentSet(S, s)
-             loadable == e.act.shallow \/ \A d \in used \cap Dirs : Present(store, s, d)
-         IN /\ ((keep \cap before) \subseteq after \/ Say("VERDICT", "C06", "UsedRemoved"))
-            /\ (e.act.ro => ((refused /\ after = before) \/ Say("VERDICT", "C06", "ReadOnlyNotRefused")))
-            /\ (e.act.dry => (after = before \/ Say("VERDICT", "C06", "DryRunRemoved")))
-            /\ ((~e.act.ro /\ loadable) =>
-                  /\ (~refused \/ Say("VERDICT", "C06", "UnexpectedRefusal"))
-                  /\ (refused \/ L.removed = Cardinality(before \ keep) \/ Say("VERDICT", "C06", "Count"))
-                  /\ (e.act.dry \/ after = before \cap keep \/ Say("VERDICT", "C06", "NotExact")))
-            /\ ((~e.act.ro /\ ~loadable) => (after = before \/ Say("VERDICT", "C06", "RefusalRemoved")))
+    /\ (op = "Gc" =>
+          /\ (C06_UsedKept(S, T, a, L) \/ Say("VERDICT", "C06", "UsedRemoved"))
+          /\ (C06_ReadOnly(S, T, a, L) \/ Say("VERDICT", "C06", "ReadOnlyNotRefused"))
+          /\ (C06_Dry(S, T, a, L) \/ Say("VERDICT", "C06", "DryRunRemoved"))
+          /\ (C06_Exact(S, T, a, L) \/ Say("VERDICT", "C06", "NotExact"))
+          /\ (C06_Refusal(S, T, a, L) \/ Say("VERDICT", "C06", "RefusalRemoved")))
     \* ---- integrity check ------------------------------------------------------
-    /\ (op = "Check") =>
-         LET s == e.act.s
-             o == e.act.o
-             st == store[s][o]
-         IN /\ ((st = "bad_u" => (L.res = "ObjectFormatError" /\ ~Present(S, s, o))) \/ Say("VERDICT", "C07", "CorruptNotDropped"))
-            /\ ((st \in {"ok_u", "ok_p"} => (L.res = "ok" /\ Intact(S, s, o))) \/ Say("VERDICT", "C07", "IntactRejected"))
-            /\ ((st \in {"ok_u", "ok_p"} /\ Local(s) => S[s][o] = "ok_p") \/ Say("VERDICT", "C07", "CheckLeavesWritable"))
+    /\ (op = "Check" => (C07_Check(S, T, a, L) \/ Say("VERDICT", "C07", "Check")))
 
 TraceNext == (Match \/ Fail) /\ Judge
 TraceSpec == TraceInit /\ [][TraceNext]_allvars
